@@ -35,7 +35,7 @@ type fmCase struct {
 }
 
 func genFM(t *rapid.T) fmCase {
-	c := fmCase{Max: pick(t, "max", 1, 2, 3, 5, 10, 37)}
+	c := fmCase{Max: pick(t, "max", 1, 2, 3, 5, 10, 20, 25, 37)}
 	n := rapid.IntRange(1, 20*c.Max+10).Draw(t, "nops")
 	if n > 400 {
 		n = 400
@@ -103,6 +103,20 @@ func runFM(tb stat.TB, c fmCase, id, check string) {
 				}
 				if n := fm.Count(); n > c.Max {
 					if stat.Violate(tb, id, check, "table-exceeds-maximum", c, "op#%d Count()=%d > max %d", i, n, c.Max) {
+						return
+					}
+				}
+				// one handle per path: the table and its path index describe the same bijection
+				byHandle, byPath := fm.VerifHandlePaths(), fm.VerifPathHandles()
+				for pp, hh := range byPath {
+					if byHandle[hh] != pp {
+						if stat.Violate(tb, id, check, "two-live-paths-share-a-handle-value", c, "op#%d after Allocate(%s)=%d: the path index maps %s to %d, which the table serves as %q", i, p, h, pp, hh, byHandle[hh]) {
+							return
+						}
+					}
+				}
+				if len(byHandle) != len(byPath) {
+					if stat.Violate(tb, id, check, "two-live-paths-share-a-handle-value", c, "op#%d after Allocate(%s)=%d: %d live handles but %d indexed paths", i, p, h, len(byHandle), len(byPath)) {
 						return
 					}
 				}
